@@ -318,6 +318,42 @@ def _contours(tt, name):
     return sorted(out)
 
 
+def _oriented(tt, name):
+    """like _contours, but every contour carries the sign of its signed area (drawing order of all its points): the winding
+    direction decides what overlapping contours fill, so an inlined mirrored component must come out with the direction the
+    ordinary decomposition gives it"""
+    from fontTools.pens.recordingPen import DecomposingRecordingPen
+
+    gs = tt.getGlyphSet()
+    pen = DecomposingRecordingPen(gs)
+    gs[name].draw(pen)
+    out, cur = [], []
+    for op, pts in pen.value:
+        if op == "moveTo":
+            cur = [tuple(round(c) for c in pts[0])]
+        elif op in ("closePath", "endPath"):
+            if cur:
+                a2 = sum(cur[i][0] * cur[(i + 1) % len(cur)][1] - cur[(i + 1) % len(cur)][0] * cur[i][1] for i in range(len(cur)))
+                out.append((tuple(sorted(set(cur))), (a2 > 0) - (a2 < 0)))
+            cur = []
+        else:
+            cur += [tuple(round(c) for c in p) for p in pts if p is not None]
+    return sorted(out)
+
+
+def same_orientation(a, b, tol=1):
+    """every contour of `a` has a partner in `b` with the same points (up to tol) AND the same winding direction"""
+    if len(a) != len(b):
+        return False
+    rest = list(b)
+    for ca, sa in a:
+        hit = next(((cb, sb) for cb, sb in rest if sa == sb and _pts_match(ca, cb, tol)), None)
+        if hit is None:
+            return False
+        rest.remove(hit)
+    return True
+
+
 def pair_kerning(tt):
     """(left, right) -> summed XAdvance adjustment of the 'kern' feature's PairPos lookups, for all glyph pairs"""
     if "GPOS" not in tt:
@@ -383,7 +419,7 @@ def same_contours(a, b, tol=1):
     return True
 
 
-def _compare(tag, with_, without, skip, problems):
+def _compare(tag, with_, without, skip, problems, oriented=False):
     skip = set(skip)
     o1, o0 = with_.getGlyphOrder(), without.getGlyphOrder()
     if [g for g in o1 if g in skip]:
@@ -400,6 +436,12 @@ def _compare(tag, with_, without, skip, problems):
         a, b = _contours(with_, g), _contours(without, g)
         if not same_contours(a, b):
             problems.append((tag, f"rendering of {g} changed", {"with": a, "without": b}))
+        elif oriented:
+            # CFF output: both builds decompose every component, so the winding direction of every contour must agree too
+            # (a TrueType build keeps a mirrored reference to an exported glyph as a component: no such comparison there)
+            a, b = _oriented(with_, g), _oriented(without, g)
+            if not same_orientation(a, b):
+                problems.append((tag, f"contour direction of {g} changed", {"with": a, "without": b}))
     if "GPOS" in without or "GPOS" in with_:
         k1, k0 = pair_kerning(with_), pair_kerning(without)
         k0r = {p: v for p, v in k0.items() if p[0] not in skip and p[1] not in skip}
@@ -424,7 +466,7 @@ def observe_static(d, how):
             with_ = fn(rtlib.build_ufo(decoy), skipExportGlyphs=list(d["skip"]))
         else:
             with_ = fn(rtlib.build_ufo(dict(base, lib={"public.skipExportGlyphs": list(d["skip"])})))
-        _compare(f"static-{flavor}-{how}", with_, without, d["skip"], problems)
+        _compare(f"static-{flavor}-{how}", with_, without, d["skip"], problems, oriented=(flavor == "otf"))
     return problems
 
 
@@ -576,7 +618,34 @@ def c13_extra(tier, seed):
     return res
 
 
+def callsites(res):
+    """syntactic, exhaustive: the two skip-export filters (static and interpolatable; pyvc cannot execute the latter) leave
+    `reverseFlipped` of decomposeCompositeGlyph at its default True / pass the literal True (scanner shared with C01)"""
+    from . import c01 as H1
+
+    obs, fails = H1.scan_callsites()
+    mine = [(lab, det) for lab, det in fails if "skipExportGlyphs.py" in lab or "util.py" in lab]
+    # obligations counted here: the call sites inside filters/skipExportGlyphs.py + the declared default in util.py
+    import ast as _ast
+
+    path = os.path.join(H1.REPO, "Lib", "ufo2ft", "filters", "skipExportGlyphs.py")
+    n_sites = sum(1 for n in _ast.walk(_ast.parse(open(path, encoding="utf-8").read()))
+                  if isinstance(n, _ast.Call) and (getattr(n.func, "id", None) or getattr(n.func, "attr", None)) == "decomposeCompositeGlyph")
+    if n_sites == 0:
+        res["checker_errors"].append("C13.callsites: no call of decomposeCompositeGlyph found in filters/skipExportGlyphs.py (scanner out of date)")
+    res["obligations"] += n_sites + 1
+    res["discharged"] += max(0, n_sites + 1 - len(mine))
+    for lab, det in mine:
+        res["violations"].append(_violation(f"C13.callsites.{lab}", {"kind": "syntactic", "detail": det,
+                                 "what": "an inlined non-export glyph is drawn without reversing flipped components: a mirrored reference changes the winding of a remaining glyph"}))
+    res["assumptions"].append("syntactic obligations C13.callsites.*: AST scan of filters/skipExportGlyphs.py and the default of util.decomposeCompositeGlyph (no aliasing), shared with C01.callsites")
+
+
 def _run(tier, seed, res):
+    try:
+        callsites(res)
+    except Exception:
+        res["checker_errors"].append("C13 call-site scan crashed: " + traceback.format_exc()[-600:])
     # L
     n, bad = order_lemma(tier)
     res["evaluations"] += n
